@@ -370,16 +370,71 @@ static Reg r_init("nn_init", [](const Args& a) {
   if (!okc) bad("init-each-point-once", "the tree built by Initialize does not store every point index exactly once");
 });
 
+// nn_stats kind seed n bucket nq | setupcost numsearches searchcost mincost maxcost evals_init evals_search
+// Statistics / ResetStatistics / swap: "cost" is documented as the number of distance calculations, so the figures are compared
+// *exactly* with a counting distance functor: setupcost = evaluations made by Initialize, searchcost = evaluations made by the
+// searches since the last ResetStatistics, numsearches = their number, mincost <= mean <= maxcost, sd >= 0; member swap and the
+// free swap exchange the trees together with their statistics (searches on the swapped objects answer for the other point set)
+struct CountD { int kind; long* n; D operator()(const Pt& a, const Pt& b) const { ++*n; return DistFn{kind}(a, b); } };
+static Reg r_stats("nn_stats", [](const Args& a) {
+  int kind = std::stoi(a[0]); uint64_t seed = std::stoull(a[1]); int n = std::stoi(a[2]), bucket = std::stoi(a[3]), nq = std::stoi(a[4]);
+  std::vector<Pt> pts = make_points(kind, seed, n), pts2 = make_points(kind, seed + 991, n / 2 + 1);
+  long cnt = 0; CountD df{kind, &cnt};
+  typedef NearestNeighbor<D, Pt, CountD> NC;
+  NC nn; nn.Initialize(pts, df, bucket); long ev_init = cnt;
+  int sc, ns, c1, cmin, cmax; double mean, sd;
+  // some searches, then a reset, then nq counted searches
+  for (int i = 0; i < 3; ++i) { std::vector<int> ind; nn.Search(pts, df, make_query(kind, seed * 7 + i, pts), ind, 2); }
+  nn.ResetStatistics(); nn.Statistics(sc, ns, c1, cmin, cmax, mean, sd);
+  if (!(ns == 0 && c1 == 0 && cmax == 0 && cmin == std::numeric_limits<int>::max() && mean == 0)) bad("nn-statistics", "ResetStatistics does not clear the search statistics");
+  if (sc != ev_init) bad("nn-statistics", "setupcost " + std::to_string(sc) + " is not the number of distance evaluations of Initialize " + std::to_string(ev_init));
+  cnt = 0; long lo = std::numeric_limits<long>::max(), hi = 0; Rng r(seed * 13 + 5);
+  for (int i = 0; i < nq; ++i) {
+    long before = cnt; std::vector<int> ind;
+    nn.Search(pts, df, make_query(kind, seed * 100 + i, pts), ind, r.irange(1, 4), r.coin() ? DMAX : D(50), r.coin() ? D(-1) : D(0), r.irange(0, 4) != 0, 0);
+    long e = cnt - before; lo = std::min(lo, e); hi = std::max(hi, e);
+  }
+  nn.Statistics(sc, ns, c1, cmin, cmax, mean, sd);
+  emit(std::to_string(sc) + " " + std::to_string(ns) + " " + std::to_string(c1) + " " + std::to_string(cmin) + " " + std::to_string(cmax) + " " + std::to_string(ev_init) + " " + std::to_string(cnt));
+  if (nq > 0) {
+    if (!(ns == nq && c1 == cnt && cmin == lo && cmax == hi)) bad("nn-statistics", "numsearches/searchcost/mincost/maxcost = " + std::to_string(ns) + "/" + std::to_string(c1) + "/" + std::to_string(cmin) + "/" + std::to_string(cmax) +
+        ", counted " + std::to_string(nq) + "/" + std::to_string(cnt) + "/" + std::to_string(lo) + "/" + std::to_string(hi));
+    if (!(std::fabs(mean - double(cnt) / nq) <= 1e-9 * (1 + mean) && cmin <= mean + 1e-9 && mean <= cmax + 1e-9 && (nq < 2 || sd >= 0))) bad("nn-statistics", "mean " + std::to_string(mean) + " / sd " + std::to_string(sd) + " inconsistent with the counted costs");
+  }
+  // swap: the objects exchange trees, sizes and statistics
+  NC mm; mm.Initialize(pts2, df, (bucket + 3) % 11);
+  std::ostringstream a0, b0; nn.Save(a0, false); mm.Save(b0, false);
+  int s1, n1, k1, l1, h1; double m1, d1; mm.Statistics(s1, n1, k1, l1, h1, m1, d1);
+  nn.swap(mm);
+  std::ostringstream a1, b1; nn.Save(a1, false); mm.Save(b1, false);
+  int s2, n2, k2, l2, h2; double m2, d2; mm.Statistics(s2, n2, k2, l2, h2, m2, d2);
+  if (!(a1.str() == b0.str() && b1.str() == a0.str() && nn.NumPoints() == int(pts2.size()) && mm.NumPoints() == n)) bad("nn-swap", "member swap does not exchange the two trees");
+  if (!(s2 == sc && n2 == ns && k2 == c1 && l2 == cmin && h2 == cmax)) bad("nn-swap", "member swap does not carry the statistics along");
+  { std::vector<int> ind; std::string e = guarded([&] { nn.Search(pts2, df, pts2[0], ind, 1); }); if (!(e.empty() && ind.size() == 1 && df(pts2[ind[0]], pts2[0]) == 0)) bad("nn-swap", "Search on the swapped object does not answer for the other point set"); }
+  std::swap(nn, mm);
+  std::ostringstream a2, b2; nn.Save(a2, false); mm.Save(b2, false);
+  if (!(a2.str() == a0.str() && b2.str() == b0.str())) bad("nn-swap", "std::swap does not exchange the two trees back");
+  (void)s1; (void)n1; (void)k1; (void)l1; (void)h1; (void)m1; (void)d1; (void)m2; (void)d2;
+  // Initialize with a bucket size outside [0, maxbucket] throws GeographicErr and "the state of the NearestNeighbor is unchanged"
+  for (int bad_bucket : {NC::maxbucket + 1, -1}) {
+    std::ostringstream b4; nn.Save(b4, false); std::string e = guarded([&] { nn.Initialize(pts2, df, bad_bucket); }); std::ostringstream a4; nn.Save(a4, false);
+    if (e != "!E") bad("nn-initialize-throws", "Initialize with bucket = " + std::to_string(bad_bucket) + " did not throw GeographicErr (" + e + ")");
+    else if (a4.str() != b4.str() || nn.NumPoints() != n) bad("nn-initialize-throws", "Initialize threw but the object changed");
+  }
+});
+
 inline std::string S(long long v) { return std::to_string(v); }
 
-inline void generate(Rng& r, bool thorough) {
+inline void generate(Rng& r, bool thorough, int K = 1) {
+  auto Q = [&](long v) { return std::max<long>(1, v / K); };   // K slices: the orchestrating generate() runs the parts round-robin
+
   auto win = [&](int kind, D& maxdist, D& mindist) {
     D scale = kind == 0 ? 16 : kind == 1 ? 2000 : kind == 2 ? 60 : kind == 3 ? 40 : 20000000000LL;
     maxdist = r.irange(0, 2) == 0 ? DMAX : D(scale * r.pick(std::vector<double>{0.05, 0.1, 0.3, 0.6, 1.0, 0.0}));
     mindist = r.irange(0, 3) == 0 ? -1 : r.irange(0, 3) == 0 ? 0 : D(scale * r.pick(std::vector<double>{0.02, 0.05, 0.1, 0.3, 0.6, 0.9}));
   };
   auto size = [&]() { int c = r.irange(0, 9); return c == 0 ? r.irange(0, 3) : c < 6 ? r.irange(4, 60) : c < 9 ? r.irange(61, 300) : r.irange(301, 700); };
-  int N = thorough ? 6000 : 3000;
+  int N = int(Q(thorough ? 6000 : 3000));
   for (int i = 0; i < N; ++i) {
     int kind = r.irange(0, 9) < 8 ? r.irange(0, 3) : 4; int n = size(); if (kind == 4) n = std::min(n, 120);
     int bucket = r.irange(0, 10), via = r.irange(0, 2) ? 0 : r.irange(1, 3);
@@ -390,23 +445,24 @@ inline void generate(Rng& r, bool thorough) {
             (mindist > 0 ? ":mindist>0" : "") + (maxdist != DMAX ? ":maxdist" : "") + (via ? ":via-save-load" : "") + (!exh ? ":non-exhaustive" : "") + (tol ? ":tol" : "") + (bucket == 0 ? ":bucket0" : ""));
     run("nn_search", {S(kind), S(r.next() % 1000000), S(n), S(bucket), S(via), S(k), S(maxdist), S(mindist), S(exh), S(tol), S(r.next() % 1000000)});
   }
-  for (int i = 0; i < (thorough ? 6000 : 1200); ++i) {
+  for (int i = 0; i < Q(thorough ? 6000 : 1200); ++i) {
     int kind = r.irange(0, 9) < 8 ? r.irange(0, 3) : 4; int n = i < 8 ? i : size(); if (kind == 4) n = std::min(n, 40); else n = std::min(n, 400);
     stratum(std::string("nn:init-vs-model:") + (kind == 0 ? "L1-tie-rich" : kind == 1 ? "L1" : kind == 2 ? "collinear" : kind == 3 ? "chebyshev" : "geodesic-mm"));
     run("nn_init", {S(kind), S(r.next() % 1000000), S(n), S(i < 24 ? i % 3 : r.irange(0, 10))});
   }
-  int NB = thorough ? 600 : 60;
+  int NB = int(Q(thorough ? 600 : 60));
   for (int i = 0; i < NB; ++i) {
     int kind = r.irange(0, 3); int n = i == 0 ? 0 : i == 1 ? 1 : i % 4 == 2 ? r.irange(1200, 2000) : r.irange(2, 900);
     stratum(std::string("nn:bulk:") + (n > 1000 ? "large" : "medium")); run("nn_bulk", {S(kind), S(r.next() % 1000000), S(n), S(r.irange(0, 10)), S(thorough ? 40 : 16)});
   }
-  for (int i = 0; i < (thorough ? 100 : 12); ++i) { stratum("nn:geodesic-double"); run("nn_geo", {S(r.next() % 1000000), S(i == 0 ? 400 : r.irange(1, 250)), S(r.irange(0, 10)), S(thorough ? 12 : 6)}); }
-  int NL = thorough ? 24000 : 6000;
+  for (int i = 0; i < Q(thorough ? 400 : 40); ++i) { stratum("nn:statistics-swap"); run("nn_stats", {S(r.irange(0, 3)), S(r.next() % 1000000), S(i < 3 ? i + 1 : r.irange(2, 300)), S(r.irange(0, 10)), S(i % 7 == 0 ? 1 : r.irange(1, 12))}); }
+  for (int i = 0; i < Q(thorough ? 100 : 12); ++i) { stratum("nn:geodesic-double"); run("nn_geo", {S(r.next() % 1000000), S(i == 0 ? 400 : r.irange(1, 250)), S(r.irange(0, 10)), S(thorough ? 12 : 6)}); }
+  int NL = int(Q(thorough ? 24000 : 6000));
   for (int i = 0; i < NL; ++i) {
     int kind = r.irange(0, 3), n = r.irange(1, 40);
     stratum("nn:load-mutated-tokens"); run("nn_load", {S(kind), S(r.next() % 1000000), S(n), S(r.irange(0, 10)), S(r.next() % 1000000000), S(r.irange(0, 9) == 0 ? 0 : r.irange(1, 3)), S(r.next() % 1000000), S(r.irange(1, 4))});
   }
-  for (int i = 0; i < (thorough ? 2000 : 200); ++i) { stratum("nn:binary-layout"); run("nn_bin", {S(r.irange(0, 4)), S(r.next() % 1000000), S(i < 3 ? i : r.irange(0, 120)), S(r.irange(0, 10))}); }
+  for (int i = 0; i < Q(thorough ? 2000 : 200); ++i) { stratum("nn:binary-layout"); run("nn_bin", {S(r.irange(0, 4)), S(r.next() % 1000000), S(i < 3 ? i : r.irange(0, 120)), S(r.irange(0, 10))}); }
   for (int i = 0; i < 4; ++i) { stratum("nn:load-truncated-binary-header"); run("nn_loadtrunc", {S(24 + 4 * (i % 2)), S(i < 2 ? 7 : 5)}); }
   for (int i = 0; i < 3; ++i) { stratum("nn:load-shared-children"); run("nn_loaddag", {S(r.irange(30, 60)), S(i)}); }
   for (int i = 0; i < NL; ++i) {
